@@ -338,7 +338,14 @@ def generator_exact_size(repo, rep, fname, size_text_fn, where):
                         % (fname, norm(sub.value)[:60]), f.loc(sub))
           continue
         if size is None:
-          rep.undecided('R1/sizes', '%s yield' % fname, 'requested size not identified', f.loc(sub))
+          verdict = size_algebra(repo, f, ctx, n, sub)
+          if verdict is None:
+            rep.undecided('R1/sizes', '%s yield' % fname, 'requested size not identified', f.loc(sub))
+          elif verdict[0]:
+            rep.ok('R1/sizes', '%s: yielded group has the requested size (size algebra: %s)' % (where, verdict[1]), loc=f.loc(sub))
+          else:
+            rep.violation('R1/sizes', f.qualname, 'yield ' + norm(sub.value)[:100],
+                          '%s yields `%s` for an admissible size n although the group then has a different size: %s' % (fname, norm(sub.value)[:60], verdict[1]), f.loc(sub))
           continue
         ex = rd.expand(n, sub.value, keep=tuple(f.params))[0]
         txt = norm(ex)
@@ -377,6 +384,118 @@ def generator_exact_size(repo, rep, fname, size_text_fn, where):
         rep.check(okform, 'R1/sizes', '%s: yielded group has exactly the requested size' % where, f.qualname, 'yield ' + txt[:100],
                   '%s yields `%s`, whose size is not the requested size %s: %s' % (fname, txt[:80], size, why), f.loc(sub))
   return n_y
+
+
+def size_algebra(repo, f, ctx, n, ysub):
+  """Decide `|yielded group| == requested size` when the loop variable is a *function* of the admissible size
+  (`for k in sorted({g(m) for m in SIZES})`): the group size F + r(k) (or F for the bare fixed group) is evaluated as a
+  closed form on a grid of (m, F) together with the guards of the yield.  Returns (True, why) when the sizes agree on
+  the whole grid and symbolically, (False, witness) when a grid point satisfying every guard disagrees, None when the
+  construct is not understood."""
+  g, rd = ctx.g, ctx.rd
+  keep = tuple(f.params)
+  # the enclosing loop over transformed sizes
+  hdr = None
+  for h in g.nodes:
+    if h.kind == 'for' and n in g.loop_body_nodes(h) and isinstance(h.ast.target, ast.Name):
+      hdr = h if hdr is None or len(g.loop_body_nodes(h)) > len(g.loop_body_nodes(hdr)) else hdr
+  if hdr is None:
+    return None
+  it = rd.expand(hdr, hdr.ast.iter, keep=keep)[0]
+  while isinstance(it, ast.Call) and isinstance(it.func, ast.Name) and it.func.id in ('sorted', 'list', 'set', 'tuple', 'reversed', 'frozenset') and len(it.args) == 1:
+    it = it.args[0]
+  if not (isinstance(it, (ast.SetComp, ast.ListComp, ast.GeneratorExp)) and len(it.generators) == 1 and isinstance(it.generators[0].target, ast.Name)):
+    return None
+  gen = it.generators[0]
+  if not re.fullmatch(r'self\.(_control_group_size_generator|treatment_group_size_range)\(.*\)', norm(gen.iter)):
+    return None
+  m, v = gen.target.id, hdr.ast.target.id
+  ex = rd.expand(n, ysub.value, keep=keep + (v,))[0]
+  # shape of the yielded group
+  fixed, r = None, None
+  is_set_call = lambda z: isinstance(z, ast.Call) and norm(z.func) == 'set'
+  if isinstance(ex, ast.BinOp) and isinstance(ex.op, ast.BitOr) and (is_set_call(ex.left) or is_set_call(ex.right)):
+    fixed, other = (ex.right, ex.left) if is_set_call(ex.left) else (ex.left, ex.right)
+    if not (len(other.args) == 1 and isinstance(other.args[0], ast.Name)):
+      return None
+    d = rd.single_def(n, other.args[0].id)
+    if d is None or d.how != 'iter':
+      return None
+    comb = rd.expand(d.node, d.value, keep=keep + (v,))[0]
+    if not (isinstance(comb, ast.Call) and au.lib_name(f.module, comb.func) == 'itertools.combinations' and len(comb.args) == 2):
+      return None
+    r = comb.args[1]
+  else:
+    fixed = ex
+  ftxt = norm(fixed)
+
+  class Unknown(Exception):
+    pass
+
+  def ev(e, env):
+    if isinstance(e, ast.Constant) and isinstance(e.value, (int, bool)):
+      return e.value
+    if isinstance(e, ast.Name):
+      if e.id in env:
+        return env[e.id]
+      if e.id == ftxt:
+        return env['#F'] > 0          # truthiness of the fixed set
+      raise Unknown()
+    if norm(e) == ftxt:
+      return env['#F'] > 0
+    if isinstance(e, ast.Call) and isinstance(e.func, ast.Name) and e.func.id == 'len' and len(e.args) == 1 and norm(e.args[0]) == ftxt:
+      return env['#F']
+    if isinstance(e, ast.Call) and isinstance(e.func, ast.Name) and e.func.id in ('max', 'min') and e.args:
+      vals = [ev(a, env) for a in e.args]
+      return max(vals) if e.func.id == 'max' else min(vals)
+    if isinstance(e, ast.Call) and isinstance(e.func, ast.Name) and e.func.id in ('abs', 'int') and len(e.args) == 1:
+      x = ev(e.args[0], env)
+      return abs(x) if e.func.id == 'abs' else int(x)
+    if isinstance(e, ast.BinOp) and isinstance(e.op, (ast.Add, ast.Sub, ast.Mult)):
+      a, b = ev(e.left, env), ev(e.right, env)
+      return a + b if isinstance(e.op, ast.Add) else a - b if isinstance(e.op, ast.Sub) else a * b
+    if isinstance(e, ast.UnaryOp) and isinstance(e.op, ast.USub):
+      return -ev(e.operand, env)
+    if isinstance(e, ast.UnaryOp) and isinstance(e.op, ast.Not):
+      return not ev(e.operand, env)
+    if isinstance(e, ast.BoolOp):
+      vals = [bool(ev(x, env)) for x in e.values]
+      return all(vals) if isinstance(e.op, ast.And) else any(vals)
+    if isinstance(e, ast.Compare) and len(e.ops) == 1:
+      a, b = ev(e.left, env), ev(e.comparators[0], env)
+      op = e.ops[0]
+      table = {ast.Eq: a == b, ast.NotEq: a != b, ast.Lt: a < b, ast.LtE: a <= b, ast.Gt: a > b, ast.GtE: a >= b}
+      if type(op) in table:
+        return table[type(op)]
+    raise Unknown()
+
+  conds = [(rd.expand(tn, e, keep=keep + (v,))[0], taken) for e, taken, tn in cfgmod.dominating_conditions(g, n)
+           if tn in g.loop_body_nodes(hdr)]
+  agree, witness, unknown = 0, None, False
+  for mval in range(0, 6):
+    for F in range(0, 5):
+      env = {m: mval, '#F': F}
+      try:
+        if not all(bool(ev(c_, env)) for c_ in gen.ifs):
+          continue            # this size is filtered out of the loop
+        env[v] = ev(it.elt, env)
+        if not all(bool(ev(e, env)) == taken for e, taken in conds):
+          continue
+        size_ = F + (ev(r, env) if r is not None else 0)
+        if r is not None and ev(r, env) < 0:
+          continue            # combinations() rejects a negative size: nothing is yielded
+      except Unknown:
+        unknown = True
+        continue
+      if size_ == mval:
+        agree += 1
+      elif witness is None:
+        witness = 'for admissible size n=%d with %d fixed geos the loop value is %s and the yielded group has %d geos' % (mval, F, env[v], size_)
+  if witness is not None:
+    return (False, witness)
+  if unknown or agree == 0:
+    return None
+  return (True, 'group size equals the admissible size on the %d grid points that satisfy the guards' % agree)
 
 
 def run_search(repo, rep, name, dwc):
